@@ -18,6 +18,11 @@ type Object interface {
 	UnmarshalJSON([]byte) error
 	ReadJSONGeneral(jctx *basictl.JSONReadContext, in *basictl.JsonLexer) error
 	WriteJSONGeneral(jctx *basictl.JSONWriteContext, w []byte) ([]byte, error)
+}
+
+// TL2Object: the TL2 methods exist only in code generated with a TL2 whitelist (asserted where needed, so that sets
+// generated without TL2 fit the same harness).
+type TL2Object interface {
 	ReadTL2(r []byte, tctx *basictl.TL2ReadContext) ([]byte, error)
 	WriteTL2(w []byte, tctx *basictl.TL2WriteContext) []byte
 }
@@ -27,6 +32,9 @@ type Function interface {
 	FillRandomResultTL1(rg *basictl.RandGenerator, w []byte) ([]byte, error)
 	ReadResultTL1WriteResultJSON(jctx *basictl.JSONWriteContext, r []byte, w []byte) ([]byte, []byte, error)
 	ReadResultJSONWriteResultTL1(jctx *basictl.JSONReadContext, r []byte, w []byte) ([]byte, []byte, error)
+}
+
+type TL2Function interface {
 	ReadResultTL1WriteResultTL2(tctx *basictl.TL2WriteContext, r []byte, w []byte) ([]byte, []byte, error)
 	ReadResultTL2WriteResultTL1(tctx *basictl.TL2ReadContext, r []byte, w []byte) ([]byte, []byte, error)
 	ReadResultTL2WriteResultJSON(tctx *basictl.TL2ReadContext, jctx *basictl.JSONWriteContext, r []byte, w []byte) ([]byte, []byte, error)
